@@ -1,6 +1,7 @@
 package main
 
 import (
+	"bytes"
 	"fmt"
 	"hash/fnv"
 	"net"
@@ -8,6 +9,9 @@ import (
 	"runtime"
 	"sort"
 	"strconv"
+	"sync"
+	"sync/atomic"
+	"time"
 
 	"github.com/pascaldekloe/mqtt"
 )
@@ -71,6 +75,79 @@ func fsHelper(args []string) {
 			os.Exit(3)
 		}
 		fmt.Println("del ok")
+	case "race":
+		// race <dir> <key-hex> <milliseconds>: one goroutine overwrites the key with a long and a short value in turn, then
+		// saves and deletes it in turn, while four others load it. Every Load must give one of the two values in full (or
+		// nothing, in the second phase): a rename puts a complete file under the key in one step.
+		key64, _ := strconv.ParseUint(args[2], 16, 32)
+		key := uint(key64)
+		ms, _ := strconv.Atoi(args[3])
+		runtime.UnlockOSThread()
+		long, short := valueFor(5, 67584, 1)[0], valueFor(6, 12, 1)[0]
+		var loads, mods atomic.Int64
+		var bad atomic.Pointer[string]
+		for phase := 0; phase < 2 && bad.Load() == nil; phase++ {
+			if err := p.Save(key, net.Buffers{short}); err != nil {
+				fmt.Println("race bad setup")
+				return
+			}
+			stop := make(chan struct{})
+			var wg sync.WaitGroup
+			for g := 0; g < 4; g++ {
+				wg.Add(1)
+				go func() {
+					defer wg.Done()
+					for {
+						select {
+						case <-stop:
+							return
+						default:
+						}
+						v, err := p.Load(key)
+						loads.Add(1)
+						var what string
+						switch {
+						case err != nil:
+							what = "Load failed while the key was being " + []string{"overwritten", "saved and deleted"}[phase]
+						case v == nil && phase == 0:
+							what = "Load found nothing under a key that is only ever overwritten"
+						case v != nil && !bytes.Equal(v, long) && !bytes.Equal(v, short):
+							what = fmt.Sprintf("Load got %d bytes that are neither the %d-byte nor the %d-byte value", len(v), len(long), len(short))
+						}
+						if what != "" {
+							bad.CompareAndSwap(nil, &what)
+							return
+						}
+					}
+				}()
+			}
+			deadline := time.Now().Add(time.Duration(ms) * time.Millisecond / 2)
+			for i := 0; time.Now().Before(deadline) && bad.Load() == nil; i++ {
+				var err error
+				switch {
+				case phase == 0 && i%2 == 0:
+					err = p.Save(key, net.Buffers{long})
+				case phase == 0:
+					err = p.Save(key, net.Buffers{short})
+				case i%2 == 0:
+					err = p.Delete(key)
+				default:
+					err = p.Save(key, net.Buffers{long})
+				}
+				if err != nil {
+					what := "Save or Delete failed beside concurrent Loads"
+					bad.CompareAndSwap(nil, &what)
+				}
+				mods.Add(1)
+			}
+			close(stop)
+			wg.Wait()
+		}
+		if b := bad.Load(); b != nil {
+			fmt.Printf("race bad %s\n", *b)
+			return
+		}
+		fmt.Printf("race ok loads=%d mods=%d\n", loads.Load(), mods.Load())
 	case "dump":
 		keys, err := p.List()
 		if err != nil {
